@@ -149,6 +149,9 @@ def run(ctx: Ctx):
     r = ctx.mc("MC_Parser", cfg_text(spec="Spec", constants={"MaxLen": n, "EmitLen": en},
                                      invariants=["InvTotal", "InvIsolated", "InvStable", "Vec"]),
                workers=8 if ctx.quick else 14, timeout=6000)
+    # liveness: the stepping form of the loop consumes every input (weak fairness, no state constraint)
+    ctx.mc("MC_ParserRun", cfg_text(spec="Spec", constants={"MaxLen": 4 if ctx.quick else 6}, invariants=["InvAgree"],
+                                    properties=["Terminates"]), workers=4 if ctx.quick else 12, timeout=3000)
     vecs = r.prints
     if len(vecs) < 5000:
         raise Machinery(f"too few sequences {len(vecs)}")
